@@ -138,7 +138,8 @@ def _tie_admitted(ctx, path):
         return {"status": "unsat", "queries": 0, "note": "a single task: no tie to admit"}
     a0, a1 = pairs[0]
     base = [formula.to_z3(x) for x in list(path.assume) + list(path.pc) + list(ctx.extra_assume)]
-    v, m, _ = formula.solve(base + list(ctx.phi) + [a0 == a1], 60000, want_model=False)
+    # (the forall-defined quantity functions replaced by the lambdas they define: a quantifier-free query)
+    v, m, _ = formula.solve(base + buffer_witness(list(ctx.phi)) + [a0 == a1], 60000, want_model=False)
     if v == "sat":
         return {"status": "unsat", "queries": 1, "note": "tie admitted"}
     if v == "unsat":
